@@ -44,6 +44,14 @@ def run(F, rep):
     rep.assumptions = ["rayon's indexed collect preserves the order of its input; radix_sort_unstable sorts"]
     G = cgmod.CallGraph(F)
     live = pipeline.live_scope(F, G)
+    # ------------------------------------------------------------ P9: where the reference sample ends
+    # The first-sample variant of the scan stops at the first record whose sample differs from the first record's: the three
+    # variants see the same reference only if a record's sample is the PanSN prefix sample#haplotype of its own header
+    # (C19-G8 / G9's evaluations of the header parser and the record reader, shared)
+    if getattr(F, "cfg", "dev") == "dev":
+        from rules import c19
+        c19.g8_rule(F, rep, "C11-P9")
+        c19.g9_rule(F, rep, "C11-P9")
     # ------------------------------------------------------------ P1
     nk = 0
     for f in F.funcs.values():
